@@ -252,12 +252,33 @@ def chk_seq(inp, c):
         elif op == "background":
             bg = np.abs(rr.normal(0.5, 0.3, nd)) + 0.05
             bg = bg * float(inp.get("unit", 1.0))
-            c.call(est.register_background_adaptation, bg.copy(), _where="register_background_adaptation")
-            K = 1.0 / (np.sum(f * bg * w, axis=-1) + base)
+            # documented options: add_baseline (default True), add (default False: replace; True: add to the current K)
+            akw = {}
+            if rr.integers(3) == 0:
+                akw["add_baseline"] = bool(rr.integers(2))
+            if np.ndim(K) == 1 and rr.integers(3) == 0:
+                akw["add"] = True
+            for kk_, vv_ in akw.items():
+                c.cell(f"background:{kk_}={vv_}")
+            c.decoy = not akw.get("add")          # an accumulating registration is not history-neutral: no decoy call before it
+            c.call(est.register_background_adaptation, bg.copy(), _where="register_background_adaptation", **akw)
+            c.decoy = True
+            Kn = 1.0 / (np.sum(f * bg * w, axis=-1) + (base if akw.get("add_baseline", True) else 0.0))
+            K = (K + Kn) if akw.get("add") else Kn
         elif op == "system_adaptation":
             xa = rr.uniform(0.1, 2, n)
-            c.call(est.register_system_adaptation, xa.copy(), _where="register_system_adaptation")
-            K = 1.0 / (xa @ Aor + base)
+            akw = {}
+            if rr.integers(3) == 0:
+                akw["add_baseline"] = bool(rr.integers(2))
+            if np.ndim(K) == 1 and rr.integers(3) == 0:
+                akw["add"] = True
+            for kk_, vv_ in akw.items():
+                c.cell(f"system_adaptation:{kk_}={vv_}")
+            c.decoy = not akw.get("add")
+            c.call(est.register_system_adaptation, xa.copy(), _where="register_system_adaptation", **akw)
+            c.decoy = True
+            Kn = 1.0 / (xa @ Aor + (base if akw.get("add_baseline", True) else 0.0))
+            K = (K + Kn) if akw.get("add") else Kn
         verify(op)
     c.nontrivial(len(inp["ops"]) >= 2)
     c.note("ops", inp["ops"])
